@@ -175,8 +175,76 @@ struct Viol {
     actual: String,
 }
 
+/// a per-detector mismatch; collapsed by `collapse` when one root cause hits many detectors on one program
+struct Mis {
+    /// key prefix, e.g. "c15:threads-differ"
+    group: String,
+    /// key suffix after the detector name, e.g. ":single-line" (may be empty)
+    suffix: String,
+    det: &'static str,
+    /// program order (small programs first) and tag
+    order: usize,
+    prog: String,
+    what: String,
+    replay: Vec<String>,
+    expected: String,
+    actual: String,
+}
+
+/// key = `<group>:<detector><suffix>`; when more than 3 detectors differ on the same program for the same
+/// (group, suffix) ONE violation `<group>:many-detectors<suffix>` is emitted (witness: the first such program) and
+/// the detectors it covers (over all programs) get no key of their own.
+fn collapse(r: &mut CheckResult, mut mis: Vec<Mis>) {
+    use std::collections::BTreeMap;
+    mis.sort_by_key(|m| m.order);
+    let mut buckets: BTreeMap<(String, String, usize), Vec<&'static str>> = BTreeMap::new();
+    for m in &mis {
+        let e = buckets.entry((m.group.clone(), m.suffix.clone(), m.order)).or_default();
+        if !e.contains(&m.det) {
+            e.push(m.det);
+        }
+    }
+    let mut covered: BTreeMap<(String, String), BTreeSet<&'static str>> = BTreeMap::new();
+    let mut witness: BTreeMap<(String, String), usize> = BTreeMap::new();
+    for ((g, sfx, o), dets) in &buckets {
+        if dets.len() > 3 {
+            covered.entry((g.clone(), sfx.clone())).or_default().extend(dets.iter().cloned());
+            witness.entry((g.clone(), sfx.clone())).or_insert(*o);
+        }
+    }
+    for m in &mis {
+        let gs = (m.group.clone(), m.suffix.clone());
+        if let Some(w) = witness.get(&gs) {
+            if covered[&gs].contains(m.det) {
+                if m.order == *w {
+                    let here = &buckets[&(m.group.clone(), m.suffix.clone(), *w)];
+                    let all: Vec<&str> = covered[&gs].iter().cloned().collect();
+                    r.violate(
+                        &format!("{}:many-detectors{}", m.group, m.suffix),
+                        &format!(
+                            "{} detectors differ on program {}: {}; {} detectors over all programs: {}; first mismatch: {}",
+                            here.len(),
+                            m.prog,
+                            here.join(", "),
+                            all.len(),
+                            all.join(", "),
+                            m.what
+                        ),
+                        m.replay.clone(),
+                        m.expected.clone(),
+                        m.actual.clone(),
+                    );
+                }
+                continue;
+            }
+        }
+        r.violate(&format!("{}:{}{}", m.group, m.det, m.suffix), &m.what, m.replay.clone(), m.expected.clone(), m.actual.clone());
+    }
+}
+
 #[derive(Default)]
 struct Part {
+    mis: Vec<Mis>,
     evals: u64,
     nontrivial: Vec<String>,
     viols: Vec<Viol>,
@@ -187,6 +255,12 @@ struct Part {
 }
 
 impl Part {
+    fn mismatch(&mut self, m: Mis) {
+        if self.mis.iter().any(|x| x.group == m.group && x.suffix == m.suffix && x.det == m.det) {
+            return;
+        }
+        self.mis.push(m);
+    }
     fn violate(&mut self, key: String, what: String, replay: Vec<String>, expected: String, actual: String) {
         if self.viols.iter().any(|v| v.key == key) {
             return;
@@ -195,7 +269,9 @@ impl Part {
     }
 }
 
+#[derive(Default)]
 struct Totals {
+    mis: Vec<Mis>,
     skipped_panics: u64,
     parse_fail: Vec<String>,
     rejected: u64,
@@ -214,6 +290,7 @@ fn merge(r: &mut CheckResult, parts: Vec<Part>, t: &mut Totals) {
             r.sample(s);
         }
         t.skipped_panics += p.skipped_panics;
+        t.mis.extend(p.mis);
         t.parse_fail.extend(p.parse_fail);
         t.rejected += p.rejected;
     }
@@ -737,6 +814,8 @@ struct BFail {
     actual: String,
     /// Some(offset) when the mismatch is get_line_number's own (contract (a) fails on this text at that offset)
     line_off: Option<usize>,
+    /// Some(key prefix) when the key is per detector (`<group>:<detector>`), subject to `collapse`
+    group: Option<&'static str>,
 }
 
 /// contract (b) on one text and one detector. Ok((flagged, None)) = holds; Ok((_, Some(fail))) = violated.
@@ -758,6 +837,7 @@ fn analyze_case(d: &Det, text: &str) -> Result<(bool, Option<BFail>), String> {
                     expected: format!("{:?}", expected),
                     actual: format!("panic: {}", m),
                     line_off: None,
+                    group: Some("c02:analyze_for-panics-but-detector-does-not"),
                 }),
             ))
         }
@@ -775,18 +855,24 @@ fn analyze_case(d: &Det, text: &str) -> Result<(bool, Option<BFail>), String> {
         for o in starts {
             if admissible(text, o) {
                 if let Some(f) = line_case(text, o) {
-                    return Ok((flagged, Some(BFail { key: f.key.to_string(), expected: format!("{:?}", expected), actual: format!("{:?}", got), line_off: Some(o) })));
+                    return Ok((flagged, Some(BFail { key: f.key.to_string(), expected: format!("{:?}", expected), actual: format!("{:?}", got), line_off: Some(o), group: None })));
                 }
             }
         }
     }
     Ok((
         flagged,
-        Some(BFail { key: format!("c02:analyze_for-lines-mismatch:{}", d.name), expected: format!("{:?}", expected), actual: format!("{:?}", got), line_off: None }),
+        Some(BFail {
+            key: format!("c02:analyze_for-lines-mismatch:{}", d.name),
+            expected: format!("{:?}", expected),
+            actual: format!("{:?}", got),
+            line_off: None,
+            group: Some("c02:analyze_for-lines-mismatch"),
+        }),
     ))
 }
 
-fn c02_program(p: &Prog, dets: &[Det], rng: &mut Rng) -> Part {
+fn c02_program(order: usize, p: &Prog, dets: &[Det], rng: &mut Rng) -> Part {
     let mut part = Part::default();
     if solang_parser::parse(&p.src, 0).is_err() {
         part.parse_fail.push(p.tag.clone());
@@ -814,16 +900,24 @@ fn c02_program(p: &Prog, dets: &[Det], rng: &mut Rng) -> Part {
                             ),
                             None => (String::new(), vec!["c02-case".into(), "analyze".into(), format!("@src:{}", text), d.name.to_string()]),
                         };
-                        part.violate(
-                            f.key,
-                            format!(
-                                "analyze_for_* with pattern {} on layout '{}' of program {} reports lines {} but the detector's locations start on lines {}{}",
-                                d.name, kind, p.tag, f.actual, f.expected, why
-                            ),
-                            replay,
-                            f.expected,
-                            f.actual,
+                        let what = format!(
+                            "analyze_for_* with pattern {} on layout '{}' of program {} reports lines {} but the detector's locations start on lines {}{}",
+                            d.name, kind, p.tag, f.actual, f.expected, why
                         );
+                        match f.group {
+                            Some(g) => part.mismatch(Mis {
+                                group: g.to_string(),
+                                suffix: String::new(),
+                                det: d.name,
+                                order,
+                                prog: p.tag.clone(),
+                                what,
+                                replay,
+                                expected: f.expected,
+                                actual: f.actual,
+                            }),
+                            None => part.violate(f.key, what, replay, f.expected, f.actual),
+                        }
                     } else if flagged && part.samples.len() < 1 && kind == "multibyte-comments" {
                         part.samples.push(J::obj(vec![
                             ("part", J::s("b")),
@@ -845,7 +939,7 @@ pub fn run_c02(tier: &str, seed: u64) -> CheckResult {
     silence();
     let thorough = tier == "thorough";
     let mut r = CheckResult::new("c02");
-    let mut tot = Totals { skipped_panics: 0, parse_fail: vec![], rejected: 0 };
+    let mut tot = Totals::default();
 
     // (a1) bounded-exhaustive
     let mut strings = vec![String::new()];
@@ -942,9 +1036,10 @@ pub fn run_c02(tier: &str, seed: u64) -> CheckResult {
     let progs = corpus(if thorough { 0 } else { 30 }, false, &mut rng);
     let parts = par_map(&progs, |i, p| {
         let mut rng = Rng::new(seed.wrapping_mul(7919).wrapping_add(i as u64));
-        c02_program(p, &dets, &mut rng)
+        c02_program(i, p, &dets, &mut rng)
     });
     merge(&mut r, parts, &mut tot);
+    collapse(&mut r, std::mem::take(&mut tot.mis));
     let b_cases = r.evaluations - exh_cases - rnd_cases;
 
     r.exhaustive = true;
@@ -1030,16 +1125,13 @@ fn c02_replay(rest: &[String]) -> i32 {
 
 /// Compare the lines reported on layout `l` with the lines of the tokens flagged on the reference layout.
 /// Returns None if the contract holds, else (key, expected, actual).
-fn relayout_case(d: &Det, l: &Layout, flagged: &[usize], base_text: &str) -> Option<(String, String, String)> {
+/// Returns None if the contract holds, else (root-cause key or None for a per-detector key, expected, actual).
+fn relayout_case(d: &Det, l: &Layout, flagged: &[usize], base_text: &str) -> Option<(Option<String>, String, String)> {
     let expected: BTreeSet<i32> = flagged.iter().map(|t| l.lines[*t]).collect();
     let got = match analyze(d, &l.text, 0) {
         Ok(g) => g,
         Err(m) => {
-            return Some((
-                format!("c17:layout-changes-findings:{}:{}", d.name, l.kind),
-                format!("{:?}", expected),
-                format!("panic (none on the one-token-per-line layout): {}", m),
-            ))
+            return Some((None, format!("{:?}", expected), format!("panic (none on the one-token-per-line layout): {}", m)))
         }
     };
     if got == expected {
@@ -1047,10 +1139,7 @@ fn relayout_case(d: &Det, l: &Layout, flagged: &[usize], base_text: &str) -> Opt
     }
     // a wrong offset-to-line conversion (C02's contract (a)) on either text is a different defect than a
     // detector or parser that reacts to layout: key it by its C02 class, not per detector and layout
-    let key = match line_fault(d, &l.text).or_else(|| line_fault(d, base_text)) {
-        Some(class) => format!("c17:{}", class.trim_start_matches("c02:")),
-        None => format!("c17:layout-changes-findings:{}:{}", d.name, l.kind),
-    };
+    let key = line_fault(d, &l.text).or_else(|| line_fault(d, base_text)).map(|class| format!("c17:{}", class.trim_start_matches("c02:")));
     Some((key, format!("{:?}", expected), format!("{:?}", got)))
 }
 
@@ -1078,7 +1167,7 @@ fn flagged_tokens(lines: &BTreeSet<i32>, ntok: usize) -> Result<Vec<usize>, Vec<
     Ok(lines.iter().map(|l| (*l - 1) as usize).collect())
 }
 
-fn c17_program(p: &Prog, dets: &[Det], rng: &mut Rng, rounds: usize) -> Part {
+fn c17_program(order: usize, p: &Prog, dets: &[Det], rng: &mut Rng, rounds: usize) -> Part {
     let mut part = Part::default();
     if solang_parser::parse(&p.src, 0).is_err() {
         part.parse_fail.push(p.tag.clone());
@@ -1123,17 +1212,23 @@ fn c17_program(p: &Prog, dets: &[Det], rng: &mut Rng, rounds: usize) -> Part {
                 }
                 Err(bad) => {
                     part.evals += 1;
-                    let key = match line_fault(d, &base.text) {
-                        Some(class) => format!("c17:{}", class.trim_start_matches("c02:")),
-                        None => format!("c17:line-without-token-start:{}", d.name),
-                    };
-                    part.violate(
-                        key,
-                        format!("{} reports lines {:?} on the one-token-per-line layout of {} which has {} lines/tokens", d.name, bad, p.tag, n),
-                        vec!["c17-case".into(), "relayout".into(), format!("@src:{}", base.text), d.name.to_string()],
-                        format!("every reported line in 1..={}", n),
-                        format!("{:?}", lines),
-                    );
+                    let what = format!("{} reports lines {:?} on the one-token-per-line layout of {} which has {} lines/tokens", d.name, bad, p.tag, n);
+                    let replay = vec!["c17-case".into(), "relayout".into(), format!("@src:{}", base.text), d.name.to_string()];
+                    let (expected, actual) = (format!("every reported line in 1..={}", n), format!("{:?}", lines));
+                    match line_fault(d, &base.text) {
+                        Some(class) => part.violate(format!("c17:{}", class.trim_start_matches("c02:")), what, replay, expected, actual),
+                        None => part.mismatch(Mis {
+                            group: "c17:line-without-token-start".into(),
+                            suffix: String::new(),
+                            det: d.name,
+                            order,
+                            prog: p.tag.clone(),
+                            what,
+                            replay,
+                            expected,
+                            actual,
+                        }),
+                    }
                     flagged.push(None);
                 }
             },
@@ -1153,21 +1248,30 @@ fn c17_program(p: &Prog, dets: &[Det], rng: &mut Rng, rounds: usize) -> Part {
             };
             part.evals += 1;
             if let Some((key, expected, actual)) = relayout_case(d, l, fl, &base.text) {
-                part.violate(
-                    key,
-                    format!(
-                        "{} on layout '{}' of {}: tokens {:?} start flagged constructs (one-token-per-line layout); they are on lines {} of this layout, reported {}",
-                        d.name,
-                        l.kind,
-                        p.tag,
-                        fl.iter().map(|i| format!("#{} {}", i, toks.texts[*i])).collect::<Vec<_>>(),
-                        expected,
-                        actual
-                    ),
-                    vec!["c17-case".into(), "relayout".into(), format!("@src:{}", l.text), d.name.to_string()],
+                let what = format!(
+                    "{} on layout '{}' of {}: tokens {:?} start flagged constructs (one-token-per-line layout); they are on lines {} of this layout, reported {}",
+                    d.name,
+                    l.kind,
+                    p.tag,
+                    fl.iter().map(|i| format!("#{} {}", i, toks.texts[*i])).collect::<Vec<_>>(),
                     expected,
-                    actual,
+                    actual
                 );
+                let replay = vec!["c17-case".into(), "relayout".into(), format!("@src:{}", l.text), d.name.to_string()];
+                match key {
+                    Some(k) => part.violate(k, what, replay, expected, actual),
+                    None => part.mismatch(Mis {
+                        group: "c17:layout-changes-findings".into(),
+                        suffix: format!(":{}", l.kind),
+                        det: d.name,
+                        order,
+                        prog: p.tag.clone(),
+                        what,
+                        replay,
+                        expected,
+                        actual,
+                    }),
+                }
             }
         }
         // (2) comment text is never flagged: same layout, comment bodies neutralised
@@ -1182,17 +1286,22 @@ fn c17_program(p: &Prog, dets: &[Det], rng: &mut Rng, rounds: usize) -> Part {
                         }
                         part.evals += 1;
                         if a != b {
-                            let key = match line_fault(d, &l.text).or_else(|| line_fault(d, &neutral)) {
-                                Some(class) => format!("c17:{}", class.trim_start_matches("c02:")),
-                                None => format!("c17:comment-text-flagged:{}", d.name),
-                            };
-                            part.violate(
-                                key,
-                                format!("{} on {}: findings change when only the text inside comments is replaced by neutral text", d.name, p.tag),
-                                vec!["c17-case".into(), "comments".into(), format!("@src:{}", l.text), d.name.to_string()],
-                                fmt_lines(&b),
-                                fmt_lines(&a),
-                            );
+                            let what = format!("{} on {}: findings change when only the text inside comments is replaced by neutral text", d.name, p.tag);
+                            let replay = vec!["c17-case".into(), "comments".into(), format!("@src:{}", l.text), d.name.to_string()];
+                            match line_fault(d, &l.text).or_else(|| line_fault(d, &neutral)) {
+                                Some(class) => part.violate(format!("c17:{}", class.trim_start_matches("c02:")), what, replay, fmt_lines(&b), fmt_lines(&a)),
+                                None => part.mismatch(Mis {
+                                    group: "c17:comment-text-flagged".into(),
+                                    suffix: String::new(),
+                                    det: d.name,
+                                    order,
+                                    prog: p.tag.clone(),
+                                    what,
+                                    replay,
+                                    expected: fmt_lines(&b),
+                                    actual: fmt_lines(&a),
+                                }),
+                            }
                         }
                     }
                 }
@@ -1211,17 +1320,22 @@ fn c17_program(p: &Prog, dets: &[Det], rng: &mut Rng, rounds: usize) -> Part {
                 part.evals += 1;
                 part.nontrivial.push(format!("{}|strings|{}", p.tag, d.name));
                 if a != b {
-                    let key = match line_fault(d, &p.src).or_else(|| line_fault(d, &neutral)) {
-                        Some(class) => format!("c17:{}", class.trim_start_matches("c02:")),
-                        None => format!("c17:string-text-flagged:{}", d.name),
-                    };
-                    part.violate(
-                        key,
-                        format!("{} on {}: findings change when only the characters inside string literals are replaced (same lengths)", d.name, p.tag),
-                        vec!["c17-case".into(), "strings".into(), format!("@src:{}", p.src), d.name.to_string()],
-                        fmt_lines(&b),
-                        fmt_lines(&a),
-                    );
+                    let what = format!("{} on {}: findings change when only the characters inside string literals are replaced (same lengths)", d.name, p.tag);
+                    let replay = vec!["c17-case".into(), "strings".into(), format!("@src:{}", p.src), d.name.to_string()];
+                    match line_fault(d, &p.src).or_else(|| line_fault(d, &neutral)) {
+                        Some(class) => part.violate(format!("c17:{}", class.trim_start_matches("c02:")), what, replay, fmt_lines(&b), fmt_lines(&a)),
+                        None => part.mismatch(Mis {
+                            group: "c17:string-text-flagged".into(),
+                            suffix: String::new(),
+                            det: d.name,
+                            order,
+                            prog: p.tag.clone(),
+                            what,
+                            replay,
+                            expected: fmt_lines(&b),
+                            actual: fmt_lines(&a),
+                        }),
+                    }
                 }
             }
         } else {
@@ -1235,16 +1349,17 @@ pub fn run_c17(tier: &str, seed: u64) -> CheckResult {
     silence();
     let thorough = tier == "thorough";
     let mut r = CheckResult::new("c17");
-    let mut tot = Totals { skipped_panics: 0, parse_fail: vec![], rejected: 0 };
+    let mut tot = Totals::default();
     let dets = detectors();
     let mut rng = Rng::new(seed);
     let progs = corpus(if thorough { 0 } else { 30 }, true, &mut rng);
     let rounds = if thorough { 3 } else { 1 };
     let parts = par_map(&progs, |i, p| {
         let mut rng = Rng::new(seed.wrapping_mul(104_729).wrapping_add(i as u64));
-        c17_program(p, &dets, &mut rng, rounds)
+        c17_program(i, p, &dets, &mut rng, rounds)
     });
     merge(&mut r, parts, &mut tot);
+    collapse(&mut r, std::mem::take(&mut tot.mis));
     r.rule = "tokens = the token sequence of solang's lexer; reference = the one-token-per-line layout (reported line L <=> token index L-1 starts a flagged construct); \
 a case is one (program, layout, detector) comparison: lines reported on the layout == lines of the reference-flagged tokens in that layout; plus (program, detector) comparisons of the findings with \
 comment bodies / string-literal contents replaced by neutral text of identical byte and line structure; non-trivial iff the detector flags at least one token of the program (or the program has a string literal to neutralise)"
@@ -1324,6 +1439,7 @@ fn c17_replay(rest: &[String]) -> i32 {
                     0
                 }
                 Some((key, expected, actual)) => {
+                    let key = key.unwrap_or_else(|| format!("c17:layout-changes-findings:{}", d.name));
                     println!("VIOLATED [{}]: those tokens are on lines {} of the given layout, reported {}", key, expected, actual);
                     1
                 }
@@ -1443,6 +1559,138 @@ fn fresh_process(src: &str, det: &str) -> Option<Lines> {
     decode_lines(txt.lines().last()?)
 }
 
+fn c15_mis(order: usize, p: &Prog, kind: &str, det: &'static str, what: String, replay_tail: Vec<String>, expected: &Lines, actual: &Lines) -> Mis {
+    let mut replay = vec!["c15-case".to_string(), kind.to_string(), format!("@src:{}", p.src), det.to_string()];
+    replay.extend(replay_tail);
+    let group = match kind {
+        "repeat" => "c15:not-repeatable",
+        "file-number" => "c15:depends-on-file-number",
+        "history" => "c15:depends-on-history",
+        "threads" | "deep-threads" => "c15:threads-differ",
+        _ => "c15:fresh-process-differs",
+    };
+    Mis {
+        group: group.to_string(),
+        suffix: String::new(),
+        det,
+        order,
+        prog: p.tag.clone(),
+        what: format!("{} on {}: {}", det, p.tag, what),
+        replay,
+        expected: fmt_lines(expected),
+        actual: fmt_lines(actual),
+    }
+}
+
+const DEEP_THREADS: [usize; 2] = [24, 32];
+
+/// deeply nested programs (every nesting level on its own line): findings at the innermost level and after the nest
+fn deep_programs() -> Vec<Prog> {
+    let inner = "if (x >= y) { s0 = x * 2; ++x; token.transfer(a0[0], 1); }";
+    let after = "x = y * 2;\n        if (y >= x) { s0 = y; y++; token.transfer(a0[0], 2); }";
+    let mut v = vec![];
+    // 1. nested ifs
+    let d = 48;
+    let mut s = String::new();
+    for i in 0..d {
+        s.push_str(&format!("{}if (x > {}) {{\n", " ".repeat(8 + i % 8), i));
+    }
+    s.push_str(inner);
+    s.push('\n');
+    for _ in 0..d {
+        s.push_str("}\n");
+    }
+    s.push_str(after);
+    v.push(Prog { src: gen::file_with_stmt(&s), tag: format!("deep-if-{}", d) });
+    // 2. nested blocks and loops
+    let d = 56;
+    let mut s = String::new();
+    let mut closers: Vec<String> = vec![];
+    for i in 0..d {
+        let (o, c) = match i % 5 {
+            0 => ("{".to_string(), "}".to_string()),
+            1 => (format!("while (x > {}) {{", i), "}".to_string()),
+            2 => (format!("for (uint i{} = 0; i{} < 2; i{}++) {{", i, i, i), "}".to_string()),
+            3 => ("unchecked {".to_string(), "}".to_string()),
+            _ => ("do {".to_string(), format!("}} while (y > {});", i)),
+        };
+        s.push_str(&o);
+        s.push('\n');
+        closers.push(c);
+    }
+    s.push_str(inner);
+    s.push('\n');
+    while let Some(c) = closers.pop() {
+        s.push_str(&c);
+        s.push('\n');
+    }
+    s.push_str(after);
+    v.push(Prog { src: gen::file_with_stmt(&s), tag: format!("deep-blocks-loops-{}", d) });
+    // 3. nested parenthesised binary expressions, one level per line
+    let d = 60;
+    let mut s = String::from("uint z =\n");
+    for _ in 0..d {
+        s.push_str("(\n");
+    }
+    s.push_str("x * 2\n");
+    for i in 0..d {
+        s.push_str(match i % 4 {
+            0 => "+ 1)\n",
+            1 => "* 2)\n",
+            2 => "- y)\n",
+            _ => "/ 4)\n",
+        });
+    }
+    s.push_str(";\n");
+    s.push_str("z;\n");
+    s.push_str(after);
+    v.push(Prog { src: gen::file_with_stmt(&s), tag: format!("deep-expr-{}", d) });
+    // 4. mixed: if / else chains with a nested expression in each condition
+    let d = 40;
+    let mut s = String::new();
+    for i in 0..d {
+        s.push_str(&format!("if (((x + {}) * 2) >= y) {{\n s0 = x;\n}} else {{\n", i));
+    }
+    s.push_str(inner);
+    s.push('\n');
+    for _ in 0..d {
+        s.push_str("}\n");
+    }
+    s.push_str(after);
+    v.push(Prog { src: gen::file_with_stmt(&s), tag: format!("deep-if-else-{}", d) });
+    v
+}
+
+/// `nthreads` threads released together; thread t walks all files starting at file t % n (so the same and different
+/// files are analysed simultaneously), each with all patterns in its own seeded order. Returns (file, pattern, lines).
+fn deep_threads_run(dets: &[Det], files: &[&str], nthreads: usize, seed: u64) -> Vec<Vec<(usize, usize, Lines)>> {
+    let barrier = Barrier::new(nthreads);
+    std::thread::scope(|s| {
+        let mut hs = vec![];
+        for t in 0..nthreads {
+            let b = &barrier;
+            let h = std::thread::Builder::new()
+                .stack_size(64 << 20)
+                .spawn_scoped(s, move || {
+                    let mut order: Vec<usize> = (0..dets.len()).collect();
+                    Rng::new(seed.wrapping_add(t as u64 * 0x9E37)).shuffle(&mut order);
+                    b.wait();
+                    let mut out = vec![];
+                    for k in 0..files.len() {
+                        let fi = (t + k) % files.len();
+                        for &di in &order {
+                            out.push((fi, di, analyze(&dets[di], files[fi], 0)));
+                        }
+                    }
+                    out
+                })
+                .expect("cannot spawn thread");
+            hs.push(h);
+        }
+        hs.into_iter().map(|h| h.join().unwrap_or_default()).collect()
+    })
+}
+
 pub fn run_c15(tier: &str, seed: u64) -> CheckResult {
     silence();
     let thorough = tier == "thorough";
@@ -1459,6 +1707,7 @@ pub fn run_c15(tier: &str, seed: u64) -> CheckResult {
     let mut fresh_jobs: Vec<(usize, usize)> = vec![];
     let mut baselines: Vec<Option<Vec<Lines>>> = vec![];
     let mut prev_src = String::new();
+    let mut mis: Vec<Mis> = vec![];
 
     for (pi, p) in progs.iter().enumerate() {
         if solang_parser::parse(&p.src, 0).is_err() {
@@ -1481,17 +1730,8 @@ pub fn run_c15(tier: &str, seed: u64) -> CheckResult {
                 }
             }
         }
-        let report = |r: &mut CheckResult, kind: &str, di: usize, what: String, replay_tail: Vec<String>, got: &Lines| {
-            let mut replay = vec!["c15-case".to_string(), kind.to_string(), format!("@src:{}", p.src), dets[di].name.to_string()];
-            replay.extend(replay_tail);
-            let key = match kind {
-                "repeat" => "c15:not-repeatable",
-                "file-number" => "c15:depends-on-file-number",
-                "history" => "c15:depends-on-history",
-                "threads" => "c15:threads-differ",
-                _ => "c15:fresh-process-differs",
-            };
-            r.violate(&format!("{}:{}", key, dets[di].name), &format!("{} on {}: {}", dets[di].name, p.tag, what), replay, fmt_lines(&base[di]), fmt_lines(got));
+        let report = |mis: &mut Vec<Mis>, kind: &str, di: usize, what: String, replay_tail: Vec<String>, got: &Lines| {
+            mis.push(c15_mis(pi, p, kind, dets[di].name, what, replay_tail, &base[di], got));
         };
         // (iii) repeated: three evaluations in a row give the same lines
         for di in 0..nd {
@@ -1503,7 +1743,7 @@ pub fn run_c15(tier: &str, seed: u64) -> CheckResult {
                 r.evaluations += 1;
                 counts[0] += 1;
                 if !same(&g, &base[di]) {
-                    report(&mut r, "repeat", di, format!("repetition {} differs from the first evaluation", k + 2), vec![], &g);
+                    report(&mut mis, "repeat", di, format!("repetition {} differs from the first evaluation", k + 2), vec![], &g);
                 }
             }
         }
@@ -1521,9 +1761,9 @@ pub fn run_c15(tier: &str, seed: u64) -> CheckResult {
                     let again = analyze(&dets[di], &p.src, *fno);
                     let zero = analyze(&dets[di], &p.src, 0);
                     if same(&again, &g) && same(&zero, &base[di]) {
-                        report(&mut r, "file-number", di, format!("file_number {} gives other lines than file_number 0", fno), vec![], &g);
+                        report(&mut mis, "file-number", di, format!("file_number {} gives other lines than file_number 0", fno), vec![], &g);
                     } else {
-                        report(&mut r, "repeat", di, format!("evaluations with file_number {} and 0 are not repeatable", fno), vec![], &g);
+                        report(&mut mis, "repeat", di, format!("evaluations with file_number {} and 0 are not repeatable", fno), vec![], &g);
                     }
                 }
             }
@@ -1540,7 +1780,7 @@ pub fn run_c15(tier: &str, seed: u64) -> CheckResult {
                     counts[2] += 1;
                     if !same(&g, &base[j]) {
                         report(
-                            &mut r,
+                            &mut mis,
                             "history",
                             j,
                             format!("differs after other patterns were run first (order seed {}, target {})", perm_seed, dets[di].name),
@@ -1564,7 +1804,7 @@ pub fn run_c15(tier: &str, seed: u64) -> CheckResult {
                 r.evaluations += 1;
                 counts[3] += 1;
                 if !same(&g, &base[di]) {
-                    report(&mut r, "threads", di, format!("thread {} of {} concurrent callers got other lines", t, THREADS), vec![tseed.to_string()], &g);
+                    report(&mut mis, "threads", di, format!("thread {} of {} concurrent callers got other lines", t, THREADS), vec![tseed.to_string()], &g);
                 }
             }
         }
@@ -1591,38 +1831,110 @@ pub fn run_c15(tier: &str, seed: u64) -> CheckResult {
                 counts[4] += 1;
                 if !same(&g, &base[*di]) {
                     let p = &progs[*pi];
-                    r.violate(
-                        &format!("c15:fresh-process-differs:{}", dets[*di].name),
-                        &format!("{} on {}: a fresh process that analyses nothing else reports other lines than this process did", dets[*di].name, p.tag),
-                        vec!["c15-case".into(), "fresh".into(), format!("@src:{}", p.src), dets[*di].name.to_string()],
-                        fmt_lines(&g),
-                        fmt_lines(&base[*di]),
-                    );
+                    mis.push(c15_mis(
+                        *pi,
+                        p,
+                        "fresh",
+                        dets[*di].name,
+                        "a fresh process that analyses nothing else reports other lines (expected) than this process did (actual)".into(),
+                        vec![],
+                        &g,
+                        &base[*di],
+                    ));
                 }
             }
         }
     }
+    // (v') deeply nested files, many concurrent callers: every thread's result against the single-threaded reference
+    let deep = deep_programs();
+    let deep_rounds: usize = if thorough { 30 } else { 10 };
+    let mut deep_cmp = 0u64;
+    let mut deep_refs: Vec<Vec<Lines>> = vec![];
+    let mut deep_ok: Vec<&Prog> = vec![];
+    for p in &deep {
+        if solang_parser::parse(&p.src, 0).is_err() {
+            parse_fail.push(p.tag.clone());
+            continue;
+        }
+        let base: Vec<Lines> = dets.iter().map(|d| analyze(d, &p.src, 0)).collect();
+        for (di, d) in dets.iter().enumerate() {
+            match &base[di] {
+                Err(_) => skipped_panics += 1,
+                Ok(l) if !l.is_empty() => {
+                    r.nontrivial.insert(format!("{}|{}", p.tag, d.name));
+                }
+                _ => {}
+            }
+        }
+        deep_refs.push(base);
+        deep_ok.push(p);
+    }
+    if !deep_ok.is_empty() {
+        let files: Vec<&str> = deep_ok.iter().map(|p| p.src.as_str()).collect();
+        for nthreads in DEEP_THREADS {
+            for round in 0..deep_rounds {
+                let dseed = seed.wrapping_mul(977).wrapping_add((nthreads * 1000 + round) as u64);
+                for (t, res) in deep_threads_run(&dets, &files, nthreads, dseed).into_iter().enumerate() {
+                    for (fi, di, g) in res {
+                        if deep_refs[fi][di].is_err() {
+                            continue;
+                        }
+                        r.evaluations += 1;
+                        deep_cmp += 1;
+                        if !same(&g, &deep_refs[fi][di]) {
+                            mis.push(c15_mis(
+                                progs.len() + fi,
+                                deep_ok[fi],
+                                "deep-threads",
+                                dets[di].name,
+                                format!(
+                                    "thread {} of {} concurrent callers (all analysing deeply nested files) got other lines than the single-threaded reference (round {})",
+                                    t, nthreads, round
+                                ),
+                                vec![dseed.to_string(), nthreads.to_string()],
+                                &deep_refs[fi][di],
+                                &g,
+                            ));
+                        }
+                    }
+                }
+            }
+        }
+        r.sample(J::obj(vec![
+            ("program", J::s(deep_ok[0].tag.clone())),
+            ("bytes", J::Num(deep_ok[0].src.len() as i64)),
+            ("optimal_comparison_lines", J::s(det_by_name(&dets, "optimal_comparison").map(|i| fmt_lines(&deep_refs[0][i])).unwrap_or_default())),
+        ]));
+    }
+    collapse(&mut r, mis);
     r.rule = format!(
         "reference = first evaluation of (file content, pattern) in this process through analyze_for_*; a case is one comparison of another evaluation of the same (content, pattern) with the reference: \
 repeated twice more; file_number in {:?}; after the 29 other patterns in a seeded permuted order (every pattern is the target once per program and round, and every intermediate result is compared too); \
-from {} threads released together, each running all 30 patterns in its own permutation, interleaved with calls on a different file; and (sampled programs) as the only call of a fresh process. \
+from {} threads released together, each running all 30 patterns in its own permutation, interleaved with calls on a different file; \
+{} deeply nested files (nesting depth 40..60, findings at the innermost level and after the nest) analysed by 24 and by 32 threads released together, each thread walking all files (rotated start, so the same and different files are analysed simultaneously) with all 30 patterns in its own permutation; \
+and (sampled programs) as the only call of a fresh process. when more than 3 detectors differ on one program for one kind of context, one `many-detectors` key is reported. \
 non-trivial iff the reference reports at least one line. THREAD INTERLEAVINGS ARE SAMPLED BY THE OS SCHEDULER, NOT EXPLORED SYSTEMATICALLY.",
-        FILE_NUMBERS, THREADS
+        FILE_NUMBERS,
+        THREADS,
+        deep.len()
     );
     r.bound = format!(
-        "{} generated programs x 30 patterns; {} history round(s); comparisons: repeat {}, file_number {}, history {}, threads {}, fresh process {}",
+        "{} generated programs x 30 patterns; {} history round(s); {} deep programs x {{24, 32}} threads x {} rounds; comparisons: repeat {}, file_number {}, history {}, threads {}, fresh process {}, deep threads {}",
         progs.len(),
         rounds,
+        deep.len(),
+        deep_rounds,
         counts[0],
         counts[1],
         counts[2],
         counts[3],
-        counts[4]
+        counts[4],
+        deep_cmp
     );
     r.extra.push(("skipped_panics".into(), J::Num(skipped_panics as i64)));
     r.extra.push(("fresh_process_unavailable".into(), J::Num(fresh_unavailable as i64)));
     r.extra.push(("parse_failures".into(), J::arr_s(parse_fail)));
-    r.assumptions.push("thread interleavings are sampled (8 OS threads, barrier start), not explored systematically; a data race that needs a rare schedule can be missed".into());
+    r.assumptions.push("thread interleavings are sampled (8, 24 and 32 OS threads, barrier start), not explored systematically; a data race that needs a rare schedule can be missed".into());
     r.assumptions.push("independence from sibling files, directories and directory position is exercised only through the file_number argument and through interleaved calls on other contents here; analyze_dir itself is C03's contract".into());
     r.assumptions.push("(program, pattern) pairs whose reference evaluation panics are skipped and counted in skipped_panics (C04); they still run as part of the history of the other patterns".into());
     r
@@ -1631,7 +1943,7 @@ non-trivial iff the reference reports at least one line. THREAD INTERLEAVINGS AR
 fn c15_replay(rest: &[String]) -> i32 {
     silence();
     if rest.len() < 3 {
-        eprintln!("usage: c15-case repeat|file-number|history|threads|fresh <source> <detector> [seed] [target]");
+        eprintln!("usage: c15-case repeat|file-number|history|threads|deep-threads|fresh <source> <detector> [seed] [target|nthreads]");
         return 2;
     }
     let src = crate::arg_or_file(&rest[1]);
@@ -1676,6 +1988,18 @@ fn c15_replay(rest: &[String]) -> i32 {
                 for (j, g) in res {
                     if j == di {
                         others.push((format!("thread {}", t), g));
+                    }
+                }
+            }
+        }
+        "deep-threads" => {
+            let nthreads: usize = rest.get(4).and_then(|x| x.parse().ok()).unwrap_or(32).clamp(2, 256);
+            for round in 0..8u64 {
+                for (t, res) in deep_threads_run(&dets, &[src.as_str()], nthreads, sd.wrapping_add(round)).into_iter().enumerate() {
+                    for (_, j, g) in res {
+                        if j == di {
+                            others.push((format!("round {} thread {} of {}", round, t, nthreads), g));
+                        }
                     }
                 }
             }
